@@ -1066,15 +1066,15 @@ impl VirtualFileSystem for Memfs {
     /// }
     /// ```
     fn config_dir<T: AsRef<str>>(&self, config: T) -> Option<PathBuf> {
+        // The system directories are searched even when no user directory can be determined
+        let mut config_dirs = crate::sys::user::sys_config_dirs().unwrap_or_default();
         if let Ok(config_dir) = crate::sys::user::config_dir() {
-            if let Ok(mut config_dirs) = crate::sys::user::sys_config_dirs() {
-                config_dirs.insert(0, config_dir);
-                for config_dir in config_dirs {
-                    let path = config_dir.mash(config.as_ref());
-                    if self.exists(path) {
-                        return Some(config_dir);
-                    }
-                }
+            config_dirs.insert(0, config_dir);
+        }
+        for config_dir in config_dirs {
+            let path = config_dir.mash(config.as_ref());
+            if self.exists(path) {
+                return Some(config_dir);
             }
         }
         None
